@@ -32,6 +32,8 @@ import sys
 import tempfile
 from pathlib import Path
 
+from frozendict import frozendict
+
 from proof_generation import proof as proof_mod
 from proof_generation.basic_interpreter import BasicInterpreter
 from proof_generation.claim import Claim
@@ -110,13 +112,19 @@ def mk_pat(s):
         return SSubst(mk_pat(s[1]), SVar(s[2]), mk_pat(s[3]))
     if k == 'not':
         return NOTATIONS[s[1]](*[mk_pat(a) for a in s[2:]])
+    if k == 'ninst':
+        # a notation instance written directly, its dictionary in the GIVEN (possibly non-ascending) key order
+        return Instantiate(mk_pat(s[1]), frozendict((kk, mk_pat(v)) for kk, v in s[2]))
+    if k == 'pinst':
+        # a partially applied notation instance instantiated further: Instantiate(body, d1).instantiate(d2)
+        return Instantiate(mk_pat(s[1]), frozendict((kk, mk_pat(v)) for kk, v in s[2])).instantiate({kk: mk_pat(v) for kk, v in s[3]})
     raise ValueError(k)
 
 
 def has_notation_spec(s):
     if not isinstance(s, list):
         return False
-    if s and s[0] == 'not':
+    if s and s[0] in ('not', 'ninst', 'pinst'):
         return True
     return any(has_notation_spec(x) for x in s)
 
@@ -710,6 +718,24 @@ class Gen:
         if depth <= 0 or r.random() < 0.25:
             return self.atom(style)
         c = r.random()
+        if style == 'notation' and c < 0.12:
+            # notation instances whose dictionary is NOT in ascending key order (hand-written, or a partial application
+            # instantiated further); the plugs are pairwise different
+            mvs = lambda i: ['mv', i, [], [], [], [], []]  # noqa: E731
+            body = r.choice([['imp', mvs(0), mvs(1)], ['app', mvs(1), ['imp', mvs(0), mvs(2)]], ['imp', ['imp', mvs(2), mvs(0)], mvs(1)]])
+            keys = [0, 1, 2] if body[0] != 'imp' or body[1][0] == 'imp' else [0, 1]
+            plugs = {}
+            for kk in keys:
+                v = self.pat(depth - 1, style)
+                while v in plugs.values():
+                    v = ['app', ['sym', 's' + str(r.randrange(4))], v]
+                plugs[kk] = v
+            order = list(reversed(keys)) if r.random() < 0.6 else r.sample(keys, len(keys))
+            if order == sorted(order):
+                order = list(reversed(order))
+            if r.random() < 0.5:
+                return ['ninst', body, [[kk, plugs[kk]] for kk in order]]
+            return ['pinst', body, [[order[0], plugs[order[0]]]], [[kk, plugs[kk]] for kk in order[1:]]]
         if style == 'notation' and c < 0.45:
             n = r.choice(['bot', 'neg', 'neg', 'top', 'and', 'or', 'equiv'] if depth <= 1 else ['bot', 'neg', 'neg', 'top', 'and', 'or'])
             ar = NOTATIONS[n].arity
@@ -723,6 +749,14 @@ class Gen:
         if c < 0.87:
             # mostly positive bodies
             x = self.var()
+            if style != 'concrete' and r.random() < 0.5:
+                # fixpoint-statement shape: the body mentions metavariables constrained ONLY by polarity in the bound
+                # variable (empty e_fresh / s_fresh / app_ctx_holes); positive as written, negative under an implication
+                pos = ['mv', r.randrange(4), [], [], [x], [], []]
+                ng = ['mv', r.randrange(4), [], [], [], [x], []]
+                both = ['mv', r.randrange(4), [], [], [x], [x], []]
+                return ['mu', x, r.choice([pos, ['imp', ng, pos], ['app', pos, both], ['imp', ['imp', pos, ng], ['sv', x]],
+                                           ['ex', self.var(), ['imp', ng, ['app', ['sym', 's1'], pos]]]])]
             return ['mu', x, r.choice([['sv', x], ['imp', self.pat(depth - 2, 'concrete'), ['sv', x]], self.pat(depth - 1, style)])]
         if c < 0.90 and style != 'concrete' and r.random() < 0.35:
             return self.stacked_subst(depth)
@@ -781,7 +815,7 @@ def mv_fields(s, acc):
 
 def subpatterns_spec(s, acc):
     if isinstance(s, list) and s and isinstance(s[0], str):
-        if s[0] in ('ev', 'sv', 'sym', 'imp', 'app', 'ex', 'mu', 'mv', 'es', 'ss', 'not'):
+        if s[0] in ('ev', 'sv', 'sym', 'imp', 'app', 'ex', 'mu', 'mv', 'es', 'ss', 'not', 'ninst', 'pinst'):
             acc.append(s)
         for x in s[1:]:
             subpatterns_spec(x, acc)
@@ -952,6 +986,8 @@ def build_module(mod, expanded=False):
         claims = [th.conc for th in thunks]
     else:
         claims = [P(c) for c in mod['claims']]
+    if mod.get('claims_perm'):
+        claims = [claims[i] for i in mod['claims_perm']]       # proofs listed in a different order than the claims
     claims = claims + [P(c) for c in mod.get('claims_extra', [])]
     if expanded:
         claims = [expand(c) for c in claims]
@@ -1112,6 +1148,34 @@ def gen_modules(seedstr, n, illformed=False):
             mod['proofs'] = proofs + [rng.choice([['ax', late], ['mp', ['dyn', ['p1'], [[0, late], [1, base_ax[0]]]], ['ax', late]]])]
             if rng.random() < 0.5:
                 mod['proofs'].append(['ax', base_ax[0], 'any'])
+        if rng.random() < 0.3:
+            # an axiom with a PENDING substitution phi_i[psi/x]; the proof instantiates a metavariable that occurs only in
+            # the plug psi (phi_i stays schematic), only phi_i, or both
+            g = Gen(rng)
+            mvs = lambda i: ['mv', i, [], [], [], [], []]  # noqa: E731
+            x = rng.randrange(3)
+            k = rng.choice(['es', 'es', 'ss'])
+            v = (lambda n: ['ev', n]) if k == 'es' else (lambda n: ['sv', n])
+            plug = rng.choice([mvs(1), ['app', mvs(1), v(x)], ['imp', mvs(1), mvs(2)], ['app', ['sym', 's0'], mvs(1)]])
+            pend = [k, mvs(0), x, plug]
+            ax = rng.choice([['imp', mvs(0), pend], ['imp', ['ex', (x + 1) % 3, mvs(1)], ['imp', mvs(0), pend]], ['imp', pend, mvs(3)]])
+            c1 = g.pat(rng.randrange(2), 'concrete')
+            if c1 == v(x):
+                c1 = ['sym', 's2']
+            which = rng.choice(['plug-only', 'plug-only', 'pattern-only', 'both'])
+            d = {'plug-only': [[1, c1]], 'pattern-only': [[0, ['app', ['sym', 's3'], v(x)]]],
+                 'both': [[0, ['app', ['sym', 's3'], v(x)]], [1, c1]]}[which]
+            mod['axs'] = mod['axs'] + [ax]
+            mod['proofs'] = mod['proofs'] + [['dyn', ['ax', ax], d]]
+            mod['pending_subst'] = which
+        if len(mod['proofs']) >= 2 and rng.random() < 0.2:
+            # proofs listed in a different order than the claims (the toolkit must refuse, or the checker must accept)
+            n_ = len(mod['proofs'])
+            perm = list(range(n_))
+            rng.shuffle(perm)
+            if perm == sorted(perm):
+                perm = perm[1:] + perm[:1]
+            mod['claims_perm'] = perm
         if illformed:
             x = rng.randrange(3)
             kind = rng.choice(['mu', 'redundant-e', 'redundant-s', 'holes', 'capture', 'constraints', 'claims', 'fresh-drop'])
@@ -1182,6 +1246,27 @@ def pressure_modules(seedstr, k):
             i = rng.randrange(n - 1)
             proofs.append(['lib', 'imp_transitivity', [{'t': ['ax', axs[i]]}, {'t': ['ax', axs[i + 1]]}]])
         mods.append({'axs': axs, 'proofs': proofs, 'claims': None, 'pressure': n})
+    return mods
+
+
+def symbol_heavy_modules(seedstr, k):
+    """theories with ~150 distinct symbol names each (well within the 256 of the format on their own, disjoint names
+    between the theories): nothing may carry over from one serialiser instance to the next"""
+    rng = random.Random(seedstr)
+    mods = []
+    for j in range(k):
+        tag = 'th%d_%d_' % (j, rng.randrange(1000))
+        nsym = rng.randrange(140, 170)
+        names = [tag + str(i) for i in range(nsym)]
+        axs = []
+        for a in range(0, nsym, 10):
+            chunk = names[a:a + 10]
+            p = ['sym', chunk[0]]
+            for nm in chunk[1:]:
+                p = ['app', p, ['sym', nm]] if rng.random() < 0.7 else ['imp', ['sym', nm], p]
+            axs.append(p)
+        proofs = [['ax', axs[-1]], ['dyn', ['p1'], [[0, axs[0]], [1, ['sym', names[-1]]]]]]
+        mods.append({'axs': axs, 'proofs': proofs, 'claims': None, 'symbols': nsym})
     return mods
 
 
@@ -1351,6 +1436,13 @@ def main():
                 r = run_module(mspec)
                 r['mod'] = {'pressure': mspec['pressure'], 'proofs': mspec['proofs'], 'axs_head': mspec['axs'][:3],
                             'regenerate': {'cmd': 'pressure_modules', 'seed': req['seed'], 'n': req['n']}}
+                ans.append(r)
+        elif cmd == 'history':
+            # several symbol-heavy modules through FRESH interpreter stacks within this ONE process
+            ans = []
+            for mspec in symbol_heavy_modules(req['seed'], req['n']):
+                r = run_pipeline(mspec)
+                r['mod'] = mspec
                 ans.append(r)
         elif cmd == 'pipeline':
             ans = []
